@@ -53,10 +53,13 @@ def gen_params(rng, spec, n):
     for k, v in (spec or {}).items():
         if v == 'le_len':                     # a cursor: 0 half of the time, else anywhere up to the end
             out[k] = 0 if rng.random() < 0.5 else rng.randint(0, n)
+        elif v == 'le_len0':                  # 0 (= feature off) two thirds of the time, else a length up to the end
+            out[k] = 0 if rng.random() < 0.66 else rng.randint(0, n)
         elif v == 'lt_len':
             out[k] = rng.randint(0, max(0, n - 1))
         elif isinstance(v, list):
-            out[k] = rng.choice(v)
+            c = rng.choice(v)
+            out[k] = gen_params(rng, {k: c}, n)[k] if c in ('le_len', 'lt_len', 'le_len0') else c
         else:
             out[k] = v
     return out
@@ -185,11 +188,33 @@ def diff_unit(name, n, seed, show):
         f.write(src.replace('#include "post.c"', '/* post.c (contracts, CBMC harnesses) is not part of the native build */'))
     cexe, xexe = os.path.join(u.work, 'diff_c'), os.path.join(u.work, 'diff_cpp')
     incs = ['-I', u.work, '-I', os.path.join(VERIF, 'shims'), '-I', u.dir, '-I', os.path.join(VERIF, 'native')]
-    rc, out, err = sh(['gcc', '-std=gnu11', '-O1', '-g', '-w', '-DIORA_NATIVE'] + SAN + incs + [os.path.join(u.dir, cfg.get('c', 'diff.c')), '-o', cexe] + cfg.get('clibs', ['-lm']))
+    # callees that this unit only declares (contract-replaced in its proofs) and another unit extracts: that unit's native TU is
+    # compiled separately and linked (-fcommon merges the ghost globals that both TUs define tentatively in shared headers)
+    objs = []
+    for lu in cfg.get('link_units', []):
+        o = pl.Unit(lu)
+        try:
+            o.extract()
+        except pl.Undecided as e:
+            log(f"DIFF {name}: UNDECIDED linked unit {lu}: {e}")
+            return 2
+        osrc = open(os.path.join(o.work, 'unit.c')).read().replace('#include "post.c"', '')
+        opath = os.path.join(u.work, f'{lu}_native.c')
+        open(opath, 'w').write(osrc)
+        oobj = os.path.join(u.work, f'{lu}_native.o')
+        rc, out, err = sh(['gcc', '-std=gnu11', '-O1', '-g', '-w', '-fcommon', '-DIORA_NATIVE'] + SAN + ['-I', os.path.join(VERIF, 'shims'), '-I', o.dir, '-c', opath, '-o', oobj])
+        if rc != 0:
+            log(f"DIFF {name}: UNDECIDED linked unit {lu} does not compile natively:\n{err[-2000:]}")
+            return 2
+        objs.append(oobj)
+    # a linked unit may extract helpers that this unit extracts too (same text, same symbol): the first definition wins
+    dup = ['-Wl,--allow-multiple-definition'] if objs else []
+    cdefs = [f'-D{d}' for d in cfg.get('cdefs', [])]      # unit-specific switches of pre.h (e.g. an inline allocation body)
+    rc, out, err = sh(['gcc', '-std=gnu11', '-O1', '-g', '-w', '-fcommon', '-DIORA_NATIVE'] + cdefs + SAN + incs + [os.path.join(u.dir, cfg.get('c', 'diff.c'))] + objs + dup + ['-o', cexe] + cfg.get('clibs', ['-lm']))
     if rc != 0:
         log(f"DIFF {name}: UNDECIDED extracted text does not compile natively (gcc -DIORA_NATIVE):\n{err[-3000:]}")
         return 2
-    rc, out, err = sh(['g++', '-std=c++17', '-O1', '-g', '-w', '-fno-access-control'] + SAN + ['-I', os.path.join(pl.REPO, 'include'), '-I', os.path.join(VERIF, 'native'),
+    rc, out, err = sh(['g++', '-std=c++17', '-O1', '-g', '-w', '-fno-access-control'] + SAN + cfg.get('cxxflags', []) + ['-I', os.path.join(pl.REPO, 'include'), '-I', os.path.join(VERIF, 'native'),
                        os.path.join(u.dir, cfg.get('cpp', 'diff.cpp')), '-o', xexe] + cfg.get('libs', ['-lpthread']))
     if rc != 0:
         log(f"DIFF {name}: UNDECIDED real-code driver does not compile:\n{err[-3000:]}")
@@ -214,6 +239,9 @@ def diff_unit(name, n, seed, show):
     tmo = cfg.get('timeout', 600)
     rc1, o1, e1 = run_side(cexe, ipath, tmo)
     rc2, o2, e2 = run_side(xexe, ipath, tmo)
+    if cfg.get('line_prefix'):          # the real code may log to stdout: only lines with this prefix are result lines
+        o1 = [l for l in o1 if l.startswith(cfg['line_prefix'])]
+        o2 = [l for l in o2 if l.startswith(cfg['line_prefix'])]
     k = 0
     while k < len(lines) and k < len(o1) and k < len(o2) and o1[k] == o2[k]:
         k += 1
